@@ -123,11 +123,21 @@ ROUTES = ['tifa_analysis()', 'tifa_analysis(other) first', 'tifa_analysis(code) 
           'tifa_analysis(); tifa_analysis(other); tifa_analysis() again']
 
 
-def check_exact(ctx, block, route=0):
+# the two variables under other names: short ones, ones that are pieces of words pedal uses internally, look-alikes
+NAME_PAIRS = [('x', 'y'), ('n', 't'), ('e', 'r'), ('u', 'ret'), ('total', 'count'), ('_', 'X'), ('retur', 'return_'),
+              ('self', 'cls'), ('l', 'list1'), ('print_', 'input_')]
+
+
+def check_exact(ctx, block, route=0, names=('x', 'y')):
     block = _fresh(block)
     lines = [("c = input()", None)]
     render(block, "", lines)
     code = "\n".join(l for l, _ in lines) + "\n"
+    fwd = {'x': names[0], 'y': names[1]}
+    inv = {v: k for k, v in fwd.items()}
+    if names != ('x', 'y'):
+        import re
+        code = re.sub(r'\b(x|y)\b', lambda m: fwd[m.group(1)], code)
     line_of = {id(s): i + 1 for i, (_, s) in enumerate(lines) if s is not None}
     finals = paths(block, [dict(asg=frozenset(), unread=frozenset(), reads=())])
     per_read = {}
@@ -179,7 +189,7 @@ def check_exact(ctx, block, route=0):
     got = {}
     for label, kind in KIND_OF.items():
         for i in t.issues.get(label, []):
-            got[(i.location.line, i.fields['name'])] = kind
+            got[(i.location.line, inv.get(i.fields['name'], i.fields['name']))] = kind
     for key, kind in expect.items():
         ctx.evaluated()
         g = got.get(key, 'none')
@@ -188,10 +198,13 @@ def check_exact(ctx, block, route=0):
     for key in got:
         if key not in expect:
             ctx.fail({'symptom': 'issue reported at a line with no such read', 'got': got[key]}, program=code, at=key)
-    un = {i.fields['name'] for i in t.issues.get('unused_variable', [])}
+    un = {inv.get(i.fields['name'], i.fields['name']) for i in t.issues.get('unused_variable', [])}
     for v in unused_must - failed_read_vars:
         if v not in un:
-            ctx.fail({'symptom': 'unused variable not reported'}, program=code, name=v)
+            sig = {'symptom': 'unused variable not reported'}
+            if fwd.get(v, v) == '_':
+                sig['variable'] = '_'          # the conventional throwaway name
+            ctx.fail(sig, program=code, name=fwd.get(v, v))
     for v in unused_mustnot - failed_read_vars:
         if v in un:
             ctx.fail({'symptom': 'variable reported unused although read after its last assignment on every path'},
@@ -200,11 +213,12 @@ def check_exact(ctx, block, route=0):
     ctx.outcome(','.join(sorted(set(expect.values()))) or 'no-reads')
 
 
-def make_exact(tops, max_top, routes=False):
+def make_exact(tops, max_top, routes=False, names=False):
     def body(ctx):
         n = ctx.choose(max_top, 'n') + 1
         block = [tops[ctx.choose(len(tops), 's%d' % i)] for i in range(n)]
-        check_exact(ctx, block, ctx.choose(len(ROUTES), 'route') if routes else 0)
+        pair = NAME_PAIRS[ctx.choose(len(NAME_PAIRS) - 1, 'names') + 1] if names else NAME_PAIRS[0]
+        check_exact(ctx, block, ctx.choose(len(ROUTES), 'route') if routes else 0, pair)
     return body
 
 
@@ -356,6 +370,9 @@ def phases(tier):
     ph = [Phase('exact-depth1', make_exact(d1, 2, routes=True), setup=_setup, chunk=300,
                 describe='all sequences of <=2 depth-1 statements x 4 analysis routes (plain, after another program, explicit code, re-asked)'),
           Phase('exact-depth2', make_exact(d2, 1), setup=_setup, chunk=300, describe='every depth-2 single statement')]
+    ph.append(Phase('exact-names', make_exact(d1, 2, names=True), setup=_setup, chunk=300,
+                    describe='all sequences of <=2 depth-1 statements with the two variables under %d other pairs of names'
+                             % (len(NAME_PAIRS) - 1)))
     d1b = _stmts(1, 2)
     # reduced sets for sequences of three statements
     core3 = [('asg', 'x'), ('asg', 'y'), ('rd', 'x')]
